@@ -5,10 +5,65 @@ let n_of_int n = if n = 0 then N0 else Npos (pos_of_int n)
 let rec int_of_pos = function XH -> 1 | XO p -> 2 * int_of_pos p | XI p -> 2 * int_of_pos p + 1
 let int_of_n = function N0 -> 0 | Npos p -> int_of_pos p
 let hexdig c = match c with '0'..'9' -> Char.code c - 48 | 'a'..'f' -> Char.code c - 87 | _ -> failwith "hex"
-let bytes_of_hex s = if s = "-" then [] else List.init (String.length s / 2) (fun i -> n_of_int (16 * hexdig s.[2*i] + hexdig s.[2*i+1]))
-let hex_of_bytes l = if l = [] then "-" else String.concat "" (List.map (fun x -> Printf.sprintf "%02x" (int_of_n x)) l)
+(* one shared N value per byte (less allocation), table-driven hex *)
+let ntab = Array.init 256 n_of_int
+let bytes_of_hex s = if s = "-" then [] else List.init (String.length s / 2) (fun i -> ntab.(16 * hexdig s.[2*i] + hexdig s.[2*i+1]))
+let hexchars = "0123456789abcdef"
+let hex_of_bytes l =
+  if l = [] then "-" else begin
+    let b = Buffer.create 256 in
+    List.iter (fun x -> let v = int_of_n x in Buffer.add_char b hexchars.[v lsr 4]; Buffer.add_char b hexchars.[v land 15]) l;
+    Buffer.contents b
+  end
 let rec firstn n l = if n = 0 then [] else match l with [] -> [] | x :: t -> x :: firstn (n-1) t
 let choice s = if s = "f" then Fresh else Reuse (int_of_string (String.sub s 1 (String.length s - 1)))
+
+
+(* ---- aligned / std allocator models (AllocBase.v, Aligned.v, Std.v) ----
+   answers: "P <ptr id> <len> <cap> <array id> <fnv1a-32 of the visible bytes>" | "U" | "ILLEGAL" | "PANIC" *)
+let pattern n a b = List.init n (fun i -> ntab.((a + i * b) land 255))
+let fnv l = List.fold_left (fun h x -> ((h lxor (int_of_n x)) * 16777619) land 0xFFFFFFFF) 2166136261 l
+let pick s = if s = "f" then PFresh else PReuse (int_of_string (String.sub s 1 (String.length s - 1)))
+let answer (h : heap) (r : ares) =
+  match r with
+  | APtr (p, len, cap) ->
+    (match hlookup p h.hlive with
+     | Some b -> Printf.printf "P %d %d %d %d %d\n%!" p len cap b.sarr (fnv (sdata b))
+     | None -> Printf.printf "P %d %d %d -1 0\n%!" p len cap)
+  | AUnit -> Printf.printf "U\n%!"
+  | AIllegal -> Printf.printf "ILLEGAL\n%!"
+  | APanic -> Printf.printf "PANIC\n%!"
+
+let ast = ref ainit
+let sst = ref sinit
+let ios = int_of_string
+(* returns true when the line was a command of the aligned/std protocol *)
+let alloc_line toks =
+  let arun o = let (h, r) = astep !ast o in ast := h; answer h r in
+  let srun o = let (h, r) = sstep !sst o in sst := h; answer h r in
+  match toks with
+  | ["ainit"] -> ast := ainit; print_endline "OK"; true
+  | ["am"; size; g] -> arun (AMalloc (ios size, pick g)); true
+  | ["afill"; p; h] -> arun (AFill (ios p, bytes_of_hex h)); true
+  | ["afillp"; p; n; a; b] -> arun (AFill (ios p, pattern (ios n) (ios a) (ios b))); true
+  | ["aa"; p; h; g] -> arun (AAppend (ios p, bytes_of_hex h, pick g)); true
+  | ["aap"; p; n; a; b; g] -> arun (AAppend (ios p, pattern (ios n) (ios a) (ios b), pick g)); true
+  | ["are"; p; size; g] -> arun (ARealloc (ios p, ios size, pick g)); true
+  | ["afree"; p] -> arun (AFree (ios p)); true
+  | ["aidx"; size] -> Printf.printf "%d\n%!" (aidx (ios size)); true
+  | ["apool"; size] ->   (* how many pooled pointers rest in the bucket a Malloc(size) would ask, and that bucket's size *)
+    let i = aidx (ios size) in
+    let n = List.length (List.filter (fun (_, b) -> aidx b.scap = i) !ast.hpool) in
+    Printf.printf "%d %d\n%!" n (bsize i); true
+  | ["sinit"] -> sst := sinit; print_endline "OK"; true
+  | ["sm"; size] -> srun (SMalloc (ios size)); true
+  | ["sfill"; p; h] -> srun (SFill (ios p, bytes_of_hex h)); true
+  | ["sfillp"; p; n; a; b] -> srun (SFill (ios p, pattern (ios n) (ios a) (ios b))); true
+  | ["sa"; p; h; nc] -> srun (SAppend (ios p, bytes_of_hex h, ios nc)); true
+  | ["sap"; p; n; a; b; nc] -> srun (SAppend (ios p, pattern (ios n) (ios a) (ios b), ios nc)); true
+  | ["sre"; p; size] -> srun (SRealloc (ios p, ios size)); true
+  | ["sfree"; p] -> srun (SFree (ios p)); true
+  | _ -> false
 
 let () =
   let st = ref (init 64 4096) in
@@ -16,6 +71,7 @@ let () =
     while true do
       let line = input_line stdin in
       let toks = String.split_on_char ' ' line in
+      if alloc_line toks then () else
       let old_len p = match lookup p !st.live with Some b -> List.length b.data | None -> 0 in
       let (o, spec) = match toks with
         | ["init"; bs; fs] -> st := init (int_of_string bs) (int_of_string fs); (None, 0)
